@@ -420,6 +420,111 @@ def h_script_skip(prog, n_max):
     return h
 
 
+def h_script_timeout(prog, n_max):
+    """BashScriptExecutor::execute_all and the document's time limit: what limit the script's process gets, and how a timed-out script surfaces"""
+    import itertools
+    from mir_exec import MapBuf, Opaque, Slice, StringBuf, VecBuf, find_method, mk_struct, new_ref
+    from mir_models import ok, as_str
+    from props.c13 import divider
+    base = h_script_skip(prog, 1)
+
+    class TimeoutModels(base.models_cls):
+        @staticmethod
+        def _run(ctx, args):
+            tc = deref(args[2])
+            ctx.notes["handed"] = field_of(field_of(tc, "config"), "timeout")
+            n = ctx.notes["n"]
+            if ctx.notes["times_out"]:
+                # the process was stopped after `done` test cases; whatever it wrote so far comes back with the Timeout status
+                out = b"".join(b"o%d\n" % i + divider(b"SALT", i, 0) for i in range(ctx.notes["done"])) + b"partial\n"
+                status = Agg("ExitStatus", "Timeout", [to_symopt(ctx.notes["handed"]).fields[0] or X.dur(mk_int(0, "nat"))])
+            else:
+                out = b"".join(b"o%d\n" % i + divider(b"SALT", i, 0) for i in range(n))
+                status = Agg("ExitStatus", "Code", [mk_int(0, "i32")])
+            return ok(mk_struct("Output", stderr=Agg("OutputStream", None, [VecBuf([], "u8")]),
+                                stdout=Agg("OutputStream", None, [VecBuf([SInt(b, "u8") for b in out], "u8")]), exit_code=status))
+
+        def __init__(self):
+            super().__init__()
+            runs = [n for n in prog.funcs if "subprocess_runner.rs" in n and n.endswith("::run")]
+            for n in runs:
+                self.overrides[n] = lambda ctx, fname, args: TimeoutModels._run(ctx, args)
+
+    def mk(n, times_out, done):
+        def setup(ctx):
+            ctx.notes.update(n=n, times_out=times_out, done=done)
+            total = X.sym_opt_dur(ctx, "total")
+            ctx.notes["total"] = total
+            tcs = []
+            for i in range(n):
+                cfg = mk_struct("TestCaseConfig", detached=none(), environment=MapBuf([]), keep_crlf=some(SBool(True)),
+                                output_stream=some(Agg("OutputStreamControl", "Combined", [])), skip_document_code=none(),
+                                strip_ansi_escaping=none(), timeout=none(), wait=none())
+                tcs.append(mk_struct("TestCase", title=StringBuf([]), shell_expression=StringBuf([SInt(ord(c), "char") for c in "cmd%d" % i]),
+                                     expectations=VecBuf([]), exit_code=none(), line_number=mk_int(i + 1, "usize"), config=cfg))
+            dflt = mk_struct("TestCaseConfig", detached=none(), environment=MapBuf([]), keep_crlf=none(), output_stream=none(),
+                             skip_document_code=none(), strip_ansi_escaping=none(), timeout=none(), wait=none())
+            doc = mk_struct("DocumentConfig", append=VecBuf([]), defaults=dflt, prepend=VecBuf([]), shell=none(), total_timeout=total)
+            cx = mk_struct("Context", work_directory=Opaque("work"), temp_directory=Opaque("tmp"), file=Opaque("file"), config=doc)
+            return [tcs, cx]
+        return setup
+
+    def post(ctx, args, kind, value):
+        if kind != "return":
+            return False
+        total = to_symopt(ctx.notes["total"])
+        handed = ctx.notes.get("handed")
+        if handed is None:
+            return False                       # the script was never run
+        h_ = to_symopt(handed)
+        tz, tp = X.nanos(total.fields[0]).z(), total.present.z()
+        want = z3.If(tp, tz, z3.IntVal(X.DEFAULT_TOTAL_NS))         # absent → the default limit
+        hp = h_.present.z()
+        conds = [hp == (want != 0)]                                 # 0 = unlimited: no limit is handed over
+        if h_.fields[0] is not None:
+            conds.append(z3.Implies(hp, X.nanos(h_.fields[0]).z() == want))
+        is_timeout = value.variant == "Err" and value.fields[0].variant == "Timeout"
+        if ctx.notes["times_out"]:
+            if not is_timeout:
+                return False
+            e = value.fields[0]
+            if e.fields[0].variant != "Total":
+                return False                   # a script has no per-test limits: it is the document's limit that was hit
+        elif is_timeout or value.variant != "Ok" or len(as_items_(value.fields[0])) != ctx.notes["n"]:
+            return False
+        return z_and([z3.simplify(c_) for c_ in conds])
+    from mir_models import as_items as as_items_
+    inputs = []
+    for n in range(1, n_max + 1):
+        inputs.append(("%d test case(s), script finishes" % n, mk(n, False, n)))
+        for done in range(0, n):
+            inputs.append(("%d test case(s), script stopped by the limit after %d" % (n, done), mk(n, True, done)))
+    h = e2.Harness("script_executor_total_timeout", base.func, inputs, post, native=None, judge=None,
+                   describe="single-script executor: the script's process gets exactly the document's total_timeout as its limit (absent → 900 s, 0 → none); a "
+                            "script stopped by it surfaces as Err(Timeout(Total)), a script that finishes never as a time-out",
+                   bound="1..%d test cases; any total_timeout (absent / 0 / any value); script finishing, or stopped after 0..n-1 test cases" % n_max)
+    h.models_cls = TimeoutModels
+    return h
+
+
+def replay_script_timeout(rep, h, res):
+    """end to end: the real single-script executor with a short / zero / long document limit on real sleeps"""
+    for model, r in res.raw_witnesses[:2]:
+        bad = None
+        for limit_ms, cmds, want in ((300, ["echo a", "sleep 2"], "Timeout"), (0, ["echo a", "sleep 0.4"], "Ok"), (5000, ["echo a", "echo b"], "Ok")):
+            nk, nv = NAT.call("script_skip", [{"commands": cmds, "skip": None, "default_skip": None, "total_timeout_ms": limit_ms}])
+            got = "Timeout" if (nk == "return" and "Timeout" in str(nv.get("Err", ""))) else ("Ok" if nk == "return" and "Ok" in nv else str(nv)[:80])
+            if got != want:
+                bad = bad or ("commands %s with total_timeout %d ms end as %s, expected %s" % (cmds, limit_ms, got, want), [cmds, limit_ms], [nk, nv])
+        if bad:
+            rep.violation("script-timeout", "the single-script executor: %s" % bad[0], {"kind": "eval", "fn": "script_skip", "args": bad[1], "native": bad[2], "harness": h.name})
+        else:
+            n = r.ctx.notes
+            rep.violation("script-timeout:mir-only", "BashScriptExecutor::execute_all breaks the time-limit contract for %d test case(s), times-out=%s after %s "
+                          "(decided on its MIR against a scripted process; the end-to-end probes with 300 ms / 0 / 5 s limits behave)" % (n["n"], n["times_out"], n["done"]),
+                          {"kind": "mir-only", "harness": h.name})
+
+
 def replay_script_skip(rep, h, res):
     """end to end: the real executor and bash on `( exit c )` / `exit c` commands"""
     for model, r in res.raw_witnesses[:4]:
@@ -442,6 +547,9 @@ def replay_script_skip(rep, h, res):
 
 # ---- the per-process runner: what it asks of the process and how it reports it -----------------------------------------------------
 
+RUNNER_ENV = {"CDPATH": "", "FOO": "b", "GREP_OPTIONS": ""}
+
+
 def h_subprocess_runner(prog):
     """SubprocessRunner::run with the `subprocess` crate replaced by a recording stub: time limit, standard input, stream redirection,
     and the status it reports when the read times out / succeeds"""
@@ -461,6 +569,12 @@ def h_subprocess_runner(prog):
                     if name in ("stdout", "stderr", "stdin"):
                         v = deref(a[1])
                         rec(c)[name] = v.variant if isinstance(v, Agg) and v.variant else (v.ty if isinstance(v, Agg) else str(v))
+                    if name == "env_extend":
+                        pairs = {}
+                        for it in as_items(deref(a[1])):
+                            k, v = (deref(x) for x in deref(it).fields)
+                            pairs["".join(chr(ch.v) for ch in as_str(k).chars)] = "".join(chr(ch.v) for ch in as_str(v).chars)
+                        rec(c)["env"] = pairs
                     return Opaque("Exec")
                 return f
             for n in ("cmd", "env_extend", "cwd", "stdout", "stderr", "stdin", "detached"):
@@ -483,7 +597,7 @@ def h_subprocess_runner(prog):
                 comm = deref(a[0])
                 rec(c)["limit_at_read"] = comm.fields[0]
                 out = some(VecBuf([SInt(b, "u8") for b in b"o\r\n"], "u8"))
-                er = some(VecBuf([SInt(b, "u8") for b in b"e\n"], "u8"))
+                er = some(VecBuf([SInt(b, "u8") for b in b"e\r\n"], "u8"))
                 if c.notes["times_out"]:
                     return err(Agg("CommunicateError", None, [Agg("ErrorKind", "TimedOut", []), Agg("tuple", None, [out, er])]))
                 return ok(Agg("tuple", None, [out, er]))
@@ -500,7 +614,6 @@ def h_subprocess_runner(prog):
             ins(r"tempfile_in::<.*>|tempfile::tempfile_in::<.*>", lambda c, m, a: ok(Opaque("File")))
             ins(r"<std::fs::File as (?:std::io::)?Write>::write|<File as Write>::write", lambda c, m, a: ok(mk_int(0, "usize")))
             ins(r"<std::fs::File as (?:std::io::)?Seek>::seek|<File as Seek>::seek", lambda c, m, a: ok(mk_int(0, "u64")))
-            ins(r"<Vec<\(&String, &String\)> as FromIterator<.*>>::from_iter::<.*>", lambda c, m, a: VecBuf([]))
 
         def const(self, ctx, name):
             if name.endswith("ErrorKind::TimedOut") or name.endswith("TimedOut"):
@@ -514,7 +627,9 @@ def h_subprocess_runner(prog):
             ctx.notes["detached"] = detached
             timeout = X.sym_opt_dur(ctx, "limit")
             ctx.notes["timeout"] = timeout
-            cfg = mk_struct("TestCaseConfig", detached=some(SBool(True)) if detached else none(), environment=MapBuf([]), keep_crlf=none(),
+            cfg = mk_struct("TestCaseConfig", detached=some(SBool(True)) if detached else none(),
+                            environment=MapBuf([[StringBuf([SInt(ord(ch), "char") for ch in k_]), StringBuf([SInt(ord(ch), "char") for ch in v_])]
+                                                for k_, v_ in RUNNER_ENV.items()]), keep_crlf=none(),
                             output_stream=some(Agg("OutputStreamControl", stream, [])) if stream else none(), skip_document_code=none(),
                             strip_ansi_escaping=none(), timeout=timeout, wait=none())
             tc = mk_struct("TestCase", title=StringBuf([]), shell_expression=StringBuf([SInt(ord(c), "char") for c in "echo {x}"]), expectations=VecBuf([]),
@@ -543,6 +658,10 @@ def h_subprocess_runner(prog):
         # the process gets exactly the expression on its standard input
         if proc.get("stdin_bytes") != list(b"echo {x}"):
             return False
+        # every variable of the test case reaches the process — the ones with an empty value too (that is how a variable is reset)
+        env = proc.get("env")
+        if env is None or any(env.get(k_) != v_ for k_, v_ in RUNNER_ENV.items()) or "SHELL" not in env:
+            return False
         # the error stream is merged into the output iff `combined`
         if proc.get("stderr") != ("Merge" if ctx.notes["stream"] == "Combined" else "Pipe") or proc.get("stdout") != "Pipe":
             return False
@@ -561,8 +680,9 @@ def h_subprocess_runner(prog):
             if not (status.variant == "Code" and status.fields[0].concrete and status.fields[0].v == 3):
                 return False
             so = [b.v for b in as_items(field_of(out, "stdout").fields[0])]
-            if so != list(b"o\n"):
-                return False          # CR LF → LF (keep_crlf unset)
+            se = [b.v for b in as_items(field_of(out, "stderr").fields[0])]
+            if so != list(b"o\n") or se != list(b"e\n"):
+                return False          # CR LF → LF on both streams (keep_crlf unset)
         return z_and([z3.simplify(zb(c_)) for c_ in conds]) if conds else True
     inputs = [("stream=%s detached=%s read-times-out=%s" % (s_, d_, t_), mk(s_, d_, t_))
               for s_ in (None, "Stdout", "Stderr", "Combined") for d_ in (False, True) for t_ in (False, True) if not (d_ and t_)]
@@ -587,8 +707,20 @@ def replay_runner(rep, h, res):
             got = nv.get("status") if nk == "return" else str(nv)
             if not str(got).lower().startswith(want):
                 bad = bad or ("`%s` with a limit of %s ms ends as %s, expected %s" % (cmd, limit_ms, got, want), [cmd, limit_ms], [nk, nv])
+        # the streams and the environment, end to end
+        nk, nv = NAT.call("bash_run", ["printf 'o\\r\\n'; printf 'e\\r\\n' 1>&2", None])
+        if nk == "return" and (bytes(nv.get("stdout", [])) != b"o\n" or bytes(nv.get("stderr", [])) != b"e\n"):
+            bad = bad or ("output `o\\r\\n` / error output `e\\r\\n` are reported as %r / %r (keep_crlf unset: both are to be translated to LF)"
+                          % (bytes(nv.get("stdout", [])), bytes(nv.get("stderr", []))), ["printf …", None], [nk, nv])
+        extra = {"env": dict(RUNNER_ENV), "parent_env": {"CDPATH": "/elsewhere", "GREP_OPTIONS": "--color=always"}}
+        nk, nv = NAT.call("bash_run", ['echo "[$CDPATH][$FOO][$GREP_OPTIONS]"', None, extra])
+        if nk == "return" and bytes(nv.get("stdout", [])) != b"[][b][]\n":
+            bad = bad or ("a test case with the variables %s, run by a scrut whose own environment has CDPATH=/elsewhere GREP_OPTIONS=--color=always, "
+                          "sees %r (expected [][b][]: empty values reset inherited variables)" % (RUNNER_ENV, bytes(nv.get("stdout", []))),
+                          ['echo "[$CDPATH][$FOO][$GREP_OPTIONS]"', None, extra], [nk, nv])
         if bad:
-            rep.violation("runner:time-limit", "the per-process runner: %s" % bad[0], {"kind": "eval", "fn": "bash_run", "args": bad[1], "native": bad[2], "harness": h.name})
+            key = "time-limit" if "with a limit of" in bad[0] else ("streams" if "error output" in bad[0] else "environment")
+            rep.violation("runner:" + key, "the per-process runner: %s" % bad[0], {"kind": "eval", "fn": "bash_run", "args": bad[1], "native": bad[2], "harness": h.name})
         else:
             rep.violation("runner:mir-only", "SubprocessRunner::run breaks its process contract for stream=%s detached=%s read-times-out=%s, timeout %s "
                           "(decided on its MIR against a recording process stub; the end-to-end probes with 0 ms / 300 ms / no limit behave)"
@@ -661,6 +793,11 @@ def run_claims(pid, rep, prog, tier):
             rep.mismatches.append("%s: solver witness did not reproduce natively: %s → %s" % (h.name, w, nv))
     e2.record(rep, h, res)
     if pid == "C14":
+        ht = h_script_timeout(prog, 2 if tier == "quick" else 3)
+        rest = e2.run_with_raw(prog, ht, max_witnesses=2)
+        replay_script_timeout(rep, ht, rest)
+        e2.record(rep, ht, rest)
+    if pid in ("C14", "C18"):
         hr = h_subprocess_runner(prog)
         resr = e2.run_with_raw(prog, hr, max_witnesses=3)
         replay_runner(rep, hr, resr)
